@@ -394,6 +394,19 @@ pub enum PartCase {
     Upper,
 }
 
+/// where the prefix of the relationships namespace used by `<sheet …:id>` is declared in `xl/workbook.xml`
+#[derive(Clone, Copy, Debug, PartialEq)]
+pub enum RelDecl {
+    /// on the root `<workbook>` (what Excel writes)
+    Workbook,
+    /// on `<sheets>` only
+    Sheets,
+    /// on every `<sheet>` element itself
+    Sheet,
+    /// `<workbook>` binds another prefix (`r0`) to the namespace, `<sheets>` binds the one the `<sheet>`s use
+    Split,
+}
+
 #[derive(Clone, Copy, Debug, PartialEq)]
 pub enum Compression {
     Stored,
@@ -463,6 +476,17 @@ pub struct Layout {
     /// ones (they do not define number formats), and `count` attributes that are wrong or missing.
     /// Private stream, `plain()` = 0. (C01)
     pub pct_styles_noise: u8,
+    /// chance, row by row, that the `<row>` is formatted as a whole: `s="<xf index>" customFormat="1"` plus further
+    /// row attributes (`outlineLevel collapsed thickTop hidden x14ac:dyDescent`). A row style is the format of the
+    /// row's EMPTY cells only: a cell without `s` has style 0, never the row's (§18.3.1.73). Private stream,
+    /// `plain()` = 0. (C01, seeded C01-m6)
+    pub pct_row_style: u8,
+    /// row styles are drawn from `0..row_style_count`; 0 = the length of the book's `cellXfs` (set by `build`)
+    pub row_style_count: u32,
+    /// where `xl/workbook.xml` declares the relationships-namespace prefix (`rel_prefix`) that `<sheet>` uses.
+    /// Namespace declarations are in scope on the element and all its descendants. `plain()` = `Workbook`.
+    /// (C01, seeded C01-m8)
+    pub rel_decl: RelDecl,
 }
 
 impl Layout {
@@ -494,6 +518,9 @@ impl Layout {
             pct_t_n_styled: 0,
             pct_xf_omit_general: 0,
             pct_styles_noise: 0,
+            pct_row_style: 0,
+            row_style_count: 0,
+            rel_decl: RelDecl::Workbook,
         }
     }
     /// every knob randomised (legal variations only)
@@ -529,17 +556,21 @@ impl Layout {
             pct_t_n_styled: *own.pick(&[0u8, 50, 100]),
             pct_xf_omit_general: *own.pick(&[0u8, 50, 100, 100]),
             pct_styles_noise: *own.pick(&[0u8, 0, 60, 100]),
+            pct_row_style: *own.pick(&[0u8, 0, 40, 100]),
+            row_style_count: 0,
+            rel_decl: *own.pick(&[RelDecl::Workbook, RelDecl::Workbook, RelDecl::Sheets, RelDecl::Sheet, RelDecl::Split]),
         }
     }
     /// short description for counters / failure signatures
     pub fn describe(&self) -> String {
         format!(
-            "pre={} rel={} case={:?} target={:?} zip={:?} dim={:?} rowref={} cellref={} lower={} swap={} dedupe={} rich={} emptysi={} tn={} selfclose={} ws={} noise={} blank={} attrshuffle={} attrextra={} tnstyled={} xfomit={} stylesnoise={}",
+            "pre={} rel={} case={:?} target={:?} zip={:?} dim={:?} rowref={} cellref={} lower={} swap={} dedupe={} rich={} emptysi={} tn={} selfclose={} ws={} noise={} blank={} attrshuffle={} attrextra={} tnstyled={} xfomit={} stylesnoise={} rowstyle={} reldecl={:?}",
             if self.prefix.is_empty() { "-" } else { &self.prefix },
             self.rel_prefix, self.part_case, self.target, self.compression, self.dimension, self.pct_row_ref,
             self.pct_cell_ref, self.pct_lower_ref, self.pct_swap_string_store, self.pct_sst_dedupe, self.pct_rich,
             self.pct_empty_si, self.pct_t_n, self.pct_self_close, self.pct_whitespace, self.pct_noise, self.pct_write_blank,
-            self.pct_attr_shuffle, self.pct_attr_extra, self.pct_t_n_styled, self.pct_xf_omit_general, self.pct_styles_noise
+            self.pct_attr_shuffle, self.pct_attr_extra, self.pct_t_n_styled, self.pct_xf_omit_general, self.pct_styles_noise,
+            self.pct_row_style, self.rel_decl
         )
     }
     fn q(&self, n: &str) -> String {
@@ -660,9 +691,14 @@ fn ws(l: &Layout, rng: &mut Rng, out: &mut Vec<Ev>) {
 pub fn render_sheet(sheet: &XlsxSheet, l: &Layout, rng: &mut Rng, sst: &mut Sst) -> Vec<Ev> {
     let mut out = Vec::new();
     let mut arng = attr_rng(l, &sheet.name);
+    // row-style knob: its own stream
+    let mut rsrng = attr_rng(l, &format!("{}#rowstyle", sheet.name));
     let (nk, nv) = l.ns_attr();
     let mut root_attrs = vec![(nk, nv)];
     root_attrs.push((format!("xmlns:{}", if l.rel_prefix.is_empty() { "r" } else { &l.rel_prefix }), NS_REL.to_string()));
+    if l.pct_row_style > 0 {
+        root_attrs.push(("xmlns:x14ac".into(), "http://schemas.microsoft.com/office/spreadsheetml/2009/9/ac".into()));
+    }
     out.push(Ev::Start(l.q("worksheet"), root_attrs));
     ws(l, rng, &mut out);
     // which stored cells are written at all
@@ -682,7 +718,18 @@ pub fn render_sheet(sheet: &XlsxSheet, l: &Layout, rng: &mut Rng, sst: &mut Sst)
                 let r1 = r0 + rng.below(((1_048_575 - r0) as u64).min(50) + 1) as u32;
                 let c1 = c0 + rng.below(((16_383 - c0) as u64).min(50) + 1) as u32;
                 let (r1, c1) = if rng.chance(1, 8) { (1_048_575, 16_383) } else { (r1, c1) };
-                Some(((r0, c0), (r1, c1)))
+                match bbox(written.iter().map(|(p, _)| **p)) {
+                    // related to the data but wrong: a LARGE declared area (all 16384 columns from row 0) whose
+                    // last row under- or overstates the real last row (a stale dimension after rows were appended
+                    // or deleted)
+                    Some(((dr0, _), (dr1, _))) if rng.chance(1, 3) => {
+                        let lo = dr0.saturating_sub(2);
+                        let hi = (dr1 + 2).min(1_048_575);
+                        let last = lo + rng.below((hi - lo) as u64 + 1) as u32;
+                        Some(((0, 0), (last, 16_383)))
+                    }
+                    _ => Some(((r0, c0), (r1, c1))),
+                }
             }
         },
     };
@@ -719,7 +766,24 @@ pub fn render_sheet(sheet: &XlsxSheet, l: &Layout, rng: &mut Rng, sst: &mut Sst)
         if roll(rng, l.pct_noise) {
             attrs.push(("ht".into(), "15".into()));
         }
-        let attrs = arrange(l, &mut arng, attrs, &ROW_EXTRAS);
+        let mut attrs = arrange(l, &mut arng, attrs, &ROW_EXTRAS);
+        if roll(&mut rsrng, l.pct_row_style) {
+            // the row is formatted as a whole; its cells keep their own style (absent = 0)
+            attrs.retain(|(k, _)| k != "customFormat" && k != "hidden");
+            let idx = rsrng.below(l.row_style_count.max(1) as u64);
+            let mut extra: Vec<(String, String)> = vec![("s".into(), idx.to_string()), ("customFormat".into(), (*rsrng.pick(&["1", "true"])).into())];
+            for (k, v) in [("hidden", "0"), ("outlineLevel", "1"), ("collapsed", "0"), ("thickTop", "1"), ("x14ac:dyDescent", "0.25")] {
+                if rsrng.chance(1, 3) {
+                    extra.push((k.into(), v.into()));
+                }
+            }
+            if rsrng.chance(1, 2) {
+                extra.extend(attrs.drain(..));
+                attrs = extra;
+            } else {
+                attrs.extend(extra);
+            }
+        }
         out.push(Ev::Start(l.q("row"), attrs));
         // after an explicit `r` on the row, or on a sequential row, the row cursor is `r`
         let mut col_index: u32 = 0;
@@ -1038,7 +1102,14 @@ impl XlsxBook {
                     sheet_parts.push((path.clone(), raw.clone().into_bytes()));
                 }
                 None => {
-                    let evs = render_sheet(sh, l, &mut rng, &mut sst);
+                    let evs = if l.row_style_count == 0 && l.pct_row_style > 0 {
+                        // row styles range over the book's own cell formats
+                        let mut l2 = l.clone();
+                        l2.row_style_count = self.cell_xfs.len().max(1) as u32;
+                        render_sheet(sh, &l2, &mut rng, &mut sst)
+                    } else {
+                        render_sheet(sh, l, &mut rng, &mut sst)
+                    };
                     sheet_parts.push((path.clone(), sc(&mut rng, &evs)));
                     sheet_events.push(evs);
                 }
@@ -1051,14 +1122,25 @@ impl XlsxBook {
         // workbook
         let mut wb = Vec::new();
         let (nk, nv) = l.ns_attr();
-        wb.push(Ev::Start(l.q("workbook"), vec![(nk, nv), (format!("xmlns:{}", l.rel_prefix), NS_REL.to_string())]));
+        let rel_ns = (format!("xmlns:{}", l.rel_prefix), NS_REL.to_string());
+        let mut wb_attrs = vec![(nk, nv)];
+        match l.rel_decl {
+            RelDecl::Workbook => wb_attrs.push(rel_ns.clone()),
+            // another prefix for the same namespace on the root; the one in use is declared further down
+            RelDecl::Split => wb_attrs.push((format!("xmlns:{}", if l.rel_prefix == "r0" { "r1" } else { "r0" }), NS_REL.to_string())),
+            RelDecl::Sheets | RelDecl::Sheet => {}
+        }
+        wb.push(Ev::Start(l.q("workbook"), wb_attrs));
         if let Some(d) = self.date1904 {
             // `date1904="0"`/`"false"` are equally legal spellings of false
             let val = if d { *rng.pick(&["1", "true"]) } else { *rng.pick(&["0", "false"]) };
             wb.push(Ev::Start(l.q("workbookPr"), vec![("date1904".into(), val.to_string())]));
             wb.push(end(&l.q("workbookPr")));
         }
-        wb.push(start(&l.q("sheets"), &[]));
+        wb.push(Ev::Start(
+            l.q("sheets"),
+            if matches!(l.rel_decl, RelDecl::Sheets | RelDecl::Split) { vec![rel_ns.clone()] } else { vec![] },
+        ));
         let mut rels = format!("<?xml version=\"1.0\" encoding=\"UTF-8\" standalone=\"yes\"?>\n<Relationships xmlns=\"{}\">", NS_PKG_REL);
         let mut sheet_rels: Vec<(String, String)> = vec![];
         for (i, sh) in self.sheets.iter().enumerate() {
@@ -1071,6 +1153,9 @@ impl XlsxBook {
                 }
                 SheetState::Hidden => attrs.push(("state".into(), "hidden".into())),
                 SheetState::VeryHidden => attrs.push(("state".into(), "veryHidden".into())),
+            }
+            if l.rel_decl == RelDecl::Sheet {
+                attrs.push(rel_ns.clone());
             }
             attrs.push((format!("{}:id", l.rel_prefix), format!("rId{}", i + 1)));
             wb.push(Ev::Start(l.q("sheet"), attrs));
